@@ -30,6 +30,7 @@ import BB.Proofs.DictEq
 import BB.Proofs.G6Eq
 import BB.Proofs.G6Forge
 import BB.Proofs.G6Desc
+import BB.Proofs.G13PermBase
 import BB.Model.Describe
 
 namespace BB.C20
@@ -1388,5 +1389,339 @@ theorem el_changeArg_neq (e : Element) (hwf : Dict.WF e.chans) (ch : Chan) (b : 
 example : Dict.get? (order_el 1 2).chans (.int 1) = some ⟨.bp (d23_bp 10), none⟩ := by decide +kernel
 example : ((order_el 1 2).changeDuration (.int 1) "ramp" (.num 2) false).st.beq (order_el 1 2) = false := by
   decide +kernel
+
+/-! ## G13: equal objects forge to the same arrays *up to the order in which the channels are listed*
+
+  `el_eq_forge_partial` / `seq_eq_forge_partial` need the channels of corresponding elements in the
+  same insertion order, although Python's `dict.__eq__` (and hence `==` on elements, sequences and
+  on the forged results themselves) ignores it.  This section removes the order hypothesis: what
+  remains is the D23 hypothesis (equal channel sample rates) and, for everything that runs
+  `validateDurations` (`Sequence.forge`: consistency check and `_applyDelays`), the proviso that
+  validation gives the same verdict on corresponding elements - which can fail for two `==`
+  elements, see `el_eq_validate_order_counterexample` and `seq_eq_forge_verdict_counterexample`. -/
+
+/-- the D23 hypothesis alone: under every channel id that both elements hold, the same sample rate
+    (no hypothesis on the order of the channels) -/
+def ElSR (e e' : Element) : Prop :=
+  ∀ ch x y, Dict.get? e.chans ch = some x → Dict.get? e'.chans ch = some y → Element.chanSR x = Element.chanSR y
+
+/-- ... for the element of an element position, and for the elements stored under the same inner
+    position of two subsequences -/
+def EntSR : Entry → Entry → Prop
+  | .el e, .el e' => ElSR e e'
+  | .sub s, .sub s' => ∀ k e e', Dict.get? s.data k = some e → Dict.get? s'.data k = some e' → ElSR e e'
+  | _, _ => True
+
+/-- **the proviso, stated precisely**: `validateDurations` accepts both corresponding elements or
+    neither (`SameVerdict e e' : (∃ m, e.validate = .ok m) ↔ (∃ m', e'.validate = .ok m')`) - for the
+    element of an element position, and for the elements under the same inner position of two
+    subsequences -/
+def EntVerdict : Entry → Entry → Prop
+  | .el e, .el e' => SameVerdict e e'
+  | .sub s, .sub s' => ∀ k e e', Dict.get? s.data k = some e → Dict.get? s'.data k = some e' → SameVerdict e e'
+  | _, _ => True
+
+/-- **the order-insensitive comparison of two `getArrays` results** (Python's `dict.__eq__` on the
+    returned dictionaries): the same (channel, output) pairs, listed in any order -/
+def SameArrays (o o' : Dict Chan Element.ChOut) : Prop := o.Perm o'
+
+/-- ... which, for a result that lists no channel twice, is the look-up statement "same channel →
+    same output" (and the same number of channels) -/
+theorem sameArrays_lookup (o o' : Dict Chan Element.ChOut) (hwf : Dict.WF o) (h : SameArrays o o') :
+    o.length = o'.length ∧ ∀ ch, Dict.get? o ch = Dict.get? o' ch :=
+  ⟨h.length_eq, fun ch => Dict.get?_perm hwf h ch⟩
+
+/-- conversely, two results without repeated channels that answer every look-up alike are
+    `SameArrays` -/
+theorem sameArrays_of_lookup (o o' : Dict Chan Element.ChOut) (hwf : Dict.WF o) (hwf' : Dict.WF o')
+    (h : ∀ ch, Dict.get? o ch = Dict.get? o' ch) : SameArrays o o' := by
+  refine (List.perm_ext_iff_of_nodup (Dict.wf_nodup hwf) (Dict.wf_nodup hwf')).mpr ?_
+  rintro ⟨k, v⟩
+  constructor
+  · intro hm
+    have := Dict.get?_eq_some_of_mem hwf k v hm
+    rw [h k] at this
+    exact Dict.mem_of_get?_eq_some k v this
+  · intro hm
+    have := Dict.get?_eq_some_of_mem hwf' k v hm
+    rw [← h k] at this
+    exact Dict.mem_of_get?_eq_some k v this
+
+/-- **equal elements at equal channel sample rates hold the same channel entries** - literally the
+    same (id, blueprint / arrays, flags) records, listed in any order.  (`…_partial`: the sample
+    rate hypothesis `ElSR` is D23.) -/
+theorem el_eq_chans_perm_partial (a b : Element) (ha : Dict.WF a.chans) (hb : Dict.WF b.chans) (h : a.beq b = true)
+    (hsr : ElSR a b) : ElPerm a b := by
+  have := Dict.eqBy_map_perm Element.entEq ha hb h id (by
+    intro k x y hx hy hxy
+    have := entEq_eq_of_sr x y hxy
+      (hsr k x y (Dict.get?_eq_some_of_mem ha k x hx) (Dict.get?_eq_some_of_mem hb k y hy))
+    rw [this])
+  show a.chans.Perm b.chans
+  simpa using this
+
+/-- helper: `getArrays` lists the element's channels, in the element's order -/
+theorem getArrays_keys_light (e : Element) (t : Bool) (arr : Dict Chan Element.ChOut) (h : e.getArrays t = .ok arr) :
+    Dict.keys arr = Dict.keys e.chans := by
+  apply mapM_keyed_keys (fun p => Element.chanOut t p.2) e.chans arr
+  rw [← h]
+  unfold Element.getArrays
+  congr 1
+
+/-- **equal elements forge to the same arrays whatever the order in which their channels were
+    added**: if `a == b` and every common channel has the same sample rate on both sides, then
+    `getArrays` succeeds on both or on neither, and the two results hold the same channels with the
+    same outputs (`SameArrays`; as look-ups: every channel id gives the same output in both).
+    No validation proviso is needed here: `Element.getArrays` does not call `validateDurations`.
+    (`…_partial`: `ElSR` is the D23 hypothesis.) -/
+theorem el_eq_forge_anyorder_partial (a b : Element) (ha : Dict.WF a.chans) (hb : Dict.WF b.chans)
+    (h : a.beq b = true) (hsr : ElSR a b) (t : Bool) :
+    (∀ o, a.getArrays t = .ok o → ∃ o', b.getArrays t = .ok o' ∧ SameArrays o o' ∧
+      ∀ ch, Dict.get? o ch = Dict.get? o' ch) ∧
+    (∀ o', b.getArrays t = .ok o' → ∃ o, a.getArrays t = .ok o ∧ SameArrays o o' ∧
+      ∀ ch, Dict.get? o ch = Dict.get? o' ch) := by
+  have hp := el_eq_chans_perm_partial a b ha hb h hsr
+  constructor
+  · intro o ho
+    obtain ⟨o', ho', hperm⟩ := hp.getArrays t o ho
+    have hwf : Dict.WF o := by unfold Dict.WF; rw [getArrays_keys_light a t o ho]; exact ha
+    exact ⟨o', ho', hperm, (sameArrays_lookup o o' hwf hperm).2⟩
+  · intro o' ho'
+    have hp' : ElPerm b a := List.Perm.symm hp
+    obtain ⟨o, ho, hperm⟩ := hp'.getArrays t o' ho'
+    have hwf : Dict.WF o := by unfold Dict.WF; rw [getArrays_keys_light a t o ho]; exact ha
+    have hperm' : SameArrays o o' := List.Perm.symm hperm
+    exact ⟨o, ho, hperm', (sameArrays_lookup o o' hwf hperm').2⟩
+
+/-! The sequence-level statements - `seq_eq_forge_content_anyorder_partial` (equal sequences forge to
+    `ForgedSame` results whatever the insertion orders of positions, inner positions and channels),
+    its two-directional form and the version for API-built sequences (no validation proviso) - are
+    in `BB/Proofs/G13C20.lean` (namespace `BB.C20`): their proofs need the delay / forge lemmas whose
+    imports would change the simp set of `Properties/C19.lean`, which imports this file. -/
+
+/-- helper: equal stored entries (equal sample rates, same verdicts) hold the same channel entries, in any order -/
+theorem entry_eq_look_partial (x y : Entry) (hx : EntryWF x) (hy : EntryWF y) (h : x.beq y = true)
+    (hsr : EntSR x y) (hv : EntVerdict x y) : EntLook ElPV x y := by
+  cases x with
+  | el a => cases y with
+    | el b => exact ⟨el_eq_chans_perm_partial a b hx hy h hsr, hv⟩
+    | sub _ => simp [Entry.beq] at h
+  | sub a => cases y with
+    | el _ => simp [Entry.beq] at h
+    | sub b =>
+      obtain ⟨a1, a2, a3, a4⟩ := hx
+      obtain ⟨b1, b2, b3, b4⟩ := hy
+      simp only [Entry.beq, Bool.and_eq_true] at h
+      obtain ⟨⟨h1, h2⟩, h3⟩ := h
+      refine ⟨⟨a1, b1, ?_, ?_⟩, Dict.eqBy_beq_get? a2 b2 h2, Dict.eqBy_beq_get? a3 b3 h3⟩
+      · exact (List.perm_ext_iff_of_nodup a1 b1).mpr (fun k => (Dict.eqBy_keys _ a1 b1 h1 k).symm)
+      · intro k e e' he he'
+        obtain ⟨y2, hy2, hee⟩ := ((Dict.eqBy_iff _ a1).mp h1).2 k e he
+        rw [he'] at hy2
+        cases hy2
+        exact ⟨el_eq_chans_perm_partial e e' (a4 e (Dict.mem_vals_of_get? he)) (b4 e' (Dict.mem_vals_of_get? he')) hee
+          (hsr k e e' he he'), hv k e e' he he'⟩
+
+/-- helper (C20, symmetry of `ForgedSame`): a pointwise relation read the other way round -/
+theorem forall2_flip {α β : Type} {R : α → β → Prop} {S : β → α → Prop} (hRS : ∀ x y, R x y → S y x)
+    {l : List α} {l' : List β} (h : List.Forall₂ R l l') : List.Forall₂ S l' l := by
+  induction h with
+  | nil => exact List.Forall₂.nil
+  | cons hxy _ ih => exact List.Forall₂.cons (hRS _ _ hxy) ih
+
+/-- `ForgedSame` is symmetric -/
+theorem forgedSame_symm {out out' : List (Nat × ForgedPos)} (h : ForgedSame out out') : ForgedSame out' out :=
+  forall2_flip (fun _ _ hxy => ⟨hxy.1.symm, hxy.2.1.symm, hxy.2.2.1.symm,
+    forall2_flip (fun _ _ huv => ⟨huv.1.symm, huv.2.1.symm, huv.2.2.symm⟩) hxy.2.2.2⟩) h
+
+/-- helper (C20): the sample-rate hypothesis is symmetric -/
+theorem entSR_symm {x y : Entry} (h : EntSR x y) : EntSR y x := by
+  cases x <;> cases y <;> simp only [EntSR] at h ⊢
+  · exact fun ch u v hu hv => (h ch v u hv hu).symm
+  · exact fun k e e' he he' ch u v hu hv => (h k e' e he' he ch v u hv hu).symm
+
+/-- helper (C20): the validation proviso is symmetric -/
+theorem entVerdict_symm {x y : Entry} (h : EntVerdict x y) : EntVerdict y x := by
+  cases x <;> cases y <;> simp only [EntVerdict] at h ⊢
+  · exact Iff.symm h
+  · exact fun k e e' he he' => Iff.symm (h k e' e he' he)
+
+/-- helper (C20, `forgedSame_lookup`): a pointwise relation, entry by entry -/
+theorem forall2_getElem {α β : Type} {R : α → β → Prop} {l : List α} {l' : List β} (h : List.Forall₂ R l l')
+    (i : Nat) (h1 : i < l.length) (h2 : i < l'.length) : R l[i] l'[i] := by
+  induction h generalizing i with
+  | nil => simp at h1
+  | cons hxy _ ih =>
+    cases i with
+    | zero => exact hxy
+    | succ i => simpa using ih i (by simpa using h1) (by simpa using h2)
+
+/-- **`ForgedSame` as a look-up statement**: at every position `i` the two results carry the same
+    position number, sequencing entry and type and equally many content entries; at every content
+    entry `j` the same inner position and inner sequencing, the channel dictionaries are
+    permutations of each other, and - when the first lists no channel twice - every channel id
+    gives the same output (arrays, flags, time option, filter annotation) in both -/
+theorem forgedSame_lookup (out out' : List (Nat × ForgedPos)) (h : ForgedSame out out') :
+    out.length = out'.length ∧
+    ∀ i (hi : i < out.length) (hi' : i < out'.length),
+      (out[i]).1 = (out'[i]).1 ∧ (out[i]).2.sequencing = (out'[i]).2.sequencing ∧
+      (out[i]).2.isSub = (out'[i]).2.isSub ∧ (out[i]).2.content.length = (out'[i]).2.content.length ∧
+      ∀ j (hj : j < (out[i]).2.content.length) (hj' : j < (out'[i]).2.content.length),
+        ((out[i]).2.content[j]).1 = ((out'[i]).2.content[j]).1 ∧
+        ((out[i]).2.content[j]).2.2 = ((out'[i]).2.content[j]).2.2 ∧
+        (((out[i]).2.content[j]).2.1).Perm (((out'[i]).2.content[j]).2.1) ∧
+        (Dict.WF ((out[i]).2.content[j]).2.1 →
+          ∀ ch, Dict.get? ((out[i]).2.content[j]).2.1 ch = Dict.get? ((out'[i]).2.content[j]).2.1 ch) := by
+  refine ⟨forall2_length h, fun i hi hi' => ?_⟩
+  obtain ⟨p1, p2, p3, p4⟩ := forall2_getElem h i hi hi'
+  refine ⟨p1, p2, p3, forall2_length p4, fun j hj hj' => ?_⟩
+  obtain ⟨c1, c2, c3⟩ := forall2_getElem p4 j hj hj'
+  exact ⟨c1, c3, c2, fun hwf ch => Dict.get?_perm hwf c2 ch⟩
+
+/-! #### the proviso cannot be dropped -/
+
+/-- channel 1 lasts 20 s, channel 2 lasts 20.1002005 s (two samples each at 0.1 Sa/s, so both
+    forge); stored in either order -/
+def slow2_el (ch1First : Bool) : Element :=
+  if ch1First then
+    ⟨[(Chan.int 1, ⟨.bp (slow_bp 20), none⟩), (Chan.int 2, ⟨.bp (slow_bp (201002005 / 10000000)), none⟩)], none⟩
+  else
+    ⟨[(Chan.int 2, ⟨.bp (slow_bp (201002005 / 10000000)), none⟩), (Chan.int 1, ⟨.bp (slow_bp 20), none⟩)], none⟩
+
+/-- a one-position sequence at 0.1 Sa/s holding `slow2_el` with its channels in either order -/
+def slow_seq (ch1First : Bool) : Sequence :=
+  { data := [(1, .el (slow2_el ch1First))], sequencing := [(1, Sequence.defaultSeqEl)],
+    awgspecs := [("SR", .val (.num (1 / 10)))] }
+
+/-- **without the proviso the statement is false**: two sequences that compare equal both ways
+    round and agree in every sample rate, of which one forges and the other raises
+    (ElementDurationError from `validateDurations`, whose `numpy.allclose(durations, durations[0])`
+    depends on which channel was added first).  Reproduced against the real library at element
+    level (`el(1 first) == el(2 first)`, the former raises in `validateDurations`, the latter
+    validates and forges).  Through the public API `addElement` refuses the former, so two sequences
+    *built by the API* always satisfy the proviso - see `seq_eq_forge_content_anyorder_built_partial`. -/
+theorem seq_eq_forge_verdict_counterexample :
+    (slow_seq true).beq (slow_seq false) = true ∧ (slow_seq false).beq (slow_seq true) = true ∧
+    ((slow_seq false).forge false false false).toOption.isSome = true ∧
+    (match (slow_seq true).forge false false false with | .error e => some e | .ok _ => none) = some Err.elemdur := by
+  decide +kernel
+
+/-- ... although the D23 hypothesis holds for the pair -/
+theorem slow_seq_sr : ∀ pos x y, Dict.get? (slow_seq true).data pos = some x →
+    Dict.get? (slow_seq false).data pos = some y → EntSR x y := by
+  intro pos x y hx hy
+  have h1 := Dict.mem_of_get?_eq_some pos x hx
+  have h2 := Dict.mem_of_get?_eq_some pos y hy
+  simp only [slow_seq, List.mem_singleton, Prod.mk.injEq] at h1 h2
+  obtain ⟨_, rfl⟩ := h1
+  obtain ⟨_, rfl⟩ := h2
+  intro ch u v hu hv
+  have m1 := Dict.mem_of_get?_eq_some ch u hu
+  have m2 := Dict.mem_of_get?_eq_some ch v hv
+  simp only [slow2_el, if_true, Bool.false_eq_true, if_false, List.mem_cons, Prod.mk.injEq, List.not_mem_nil, or_false] at m1 m2
+  rcases m1 with ⟨_, rfl⟩ | ⟨_, rfl⟩ <;> rcases m2 with ⟨_, rfl⟩ | ⟨_, rfl⟩ <;> rfl
+
+/-! #### non-vacuity: the same channels added in the other order, at an element position and inside
+    a subsequence whose positions were filled in the other order -/
+
+/-- position 1: the two-channel element; position 2: a subsequence holding it twice -/
+def perm_seq (o : Bool) : Sequence :=
+  { data := [(1, .el (if o then order_el 1 2 else order_el 2 1)),
+             (2, .sub { data := if o then [(1, order_el 1 2), (2, order_el 2 1)] else [(2, order_el 1 2), (1, order_el 2 1)],
+                        sequencing := [(1, Sequence.defaultSeqEl), (2, Sequence.defaultSeqEl)],
+                        awgspecs := [("SR", .val (.num 10))] })],
+    sequencing := [(1, Sequence.defaultSeqEl), (2, Sequence.defaultSeqSub)],
+    awgspecs := [("SR", .val (.num 10)), ("channel1_delay", .val (.num (1 / 5)))] }
+
+/-- non-vacuity (C20 any order): the two-channel example element lists no channel twice -/
+theorem order_el_wf (i j : Int) (hij : i ≠ j) : Dict.WF (order_el i j).chans := by
+  simp [Dict.WF, Dict.keys, order_el, hij]
+
+/-- non-vacuity (C20 any order): the example sequences are well-formed -/
+theorem perm_seq_wf (o : Bool) : SeqWF (perm_seq o) := by
+  cases o
+  all_goals
+    refine ⟨by simp [Dict.WF, Dict.keys, perm_seq], by simp [Dict.WF, Dict.keys, perm_seq],
+      by simp [Dict.WF, Dict.keys, perm_seq], ?_⟩
+    intro en hen
+    simp only [perm_seq, Dict.vals, List.map_cons, List.map_nil, List.mem_cons, List.not_mem_nil, or_false,
+      Bool.false_eq_true, if_false, if_true] at hen
+    rcases hen with rfl | rfl
+    · exact order_el_wf _ _ (by decide)
+    · refine ⟨by simp [Dict.WF, Dict.keys], by simp [Dict.WF, Dict.keys], by simp [Dict.WF, Dict.keys], ?_⟩
+      intro e he
+      simp only [Dict.vals, List.map_cons, List.map_nil, List.mem_cons, List.not_mem_nil, or_false] at he
+      rcases he with rfl | rfl <;> exact order_el_wf _ _ (by decide)
+
+/-- every channel entry of `order_el` has sample rate 10 -/
+theorem order_el_sr (i j : Int) (ch : Chan) (x : ChEntry) (h : Dict.get? (order_el i j).chans ch = some x) :
+    Element.chanSR x = .ok (.num 10) := by
+  have := Dict.mem_of_get?_eq_some ch x h
+  simp only [order_el, List.mem_cons, Prod.mk.injEq, List.not_mem_nil, or_false] at this
+  rcases this with ⟨_, rfl⟩ | ⟨_, rfl⟩ <;> rfl
+
+/-- the hypotheses of `seq_eq_forge_content_anyorder_partial` hold for the pair: equal, equal sample
+    rates, same verdicts (all four elements validate) -/
+theorem perm_seq_hyps :
+    (perm_seq true).beq (perm_seq false) = true ∧
+    (∀ pos x y, Dict.get? (perm_seq true).data pos = some x → Dict.get? (perm_seq false).data pos = some y → EntSR x y) ∧
+    (∀ pos x y, Dict.get? (perm_seq true).data pos = some x → Dict.get? (perm_seq false).data pos = some y →
+      EntVerdict x y) := by
+  have hv12 : ∃ m, (order_el 1 2).validate = .ok m := ⟨(.num 10, 1), by decide +kernel⟩
+  have hv21 : ∃ m, (order_el 2 1).validate = .ok m := ⟨(.num 10, 1), by decide +kernel⟩
+  have hel : ∀ e : Element, e = order_el 1 2 ∨ e = order_el 2 1 → ∃ m, e.validate = .ok m := by
+    rintro e (rfl | rfl)
+    · exact hv12
+    · exact hv21
+  have hsrel : ∀ e e' : Element, (e = order_el 1 2 ∨ e = order_el 2 1) → (e' = order_el 1 2 ∨ e' = order_el 2 1) →
+      ElSR e e' := by
+    intro e e' he he' ch u v hu hv
+    have h1 : Element.chanSR u = .ok (.num 10) := by
+      rcases he with rfl | rfl <;> exact order_el_sr _ _ ch u hu
+    have h2 : Element.chanSR v = .ok (.num 10) := by
+      rcases he' with rfl | rfl <;> exact order_el_sr _ _ ch v hv
+    rw [h1, h2]
+  have hsubmem : ∀ (o : Bool) k e, Dict.get? (if o then [((1 : Int), order_el 1 2), (2, order_el 2 1)]
+      else [(2, order_el 1 2), (1, order_el 2 1)]) k = some e → e = order_el 1 2 ∨ e = order_el 2 1 := by
+    intro o k e hk
+    have := Dict.mem_of_get?_eq_some k e hk
+    cases o <;> simp only [Bool.false_eq_true, if_false, if_true, List.mem_cons, Prod.mk.injEq, List.not_mem_nil, or_false] at this
+    · rcases this with ⟨_, rfl⟩ | ⟨_, rfl⟩ <;> simp
+    · rcases this with ⟨_, rfl⟩ | ⟨_, rfl⟩ <;> simp
+  refine ⟨by decide +kernel, ?_, ?_⟩
+  · intro pos x y hx hy
+    have h1 := Dict.mem_of_get?_eq_some pos x hx
+    have h2 := Dict.mem_of_get?_eq_some pos y hy
+    simp only [perm_seq, if_true, Bool.false_eq_true, if_false, List.mem_cons, Prod.mk.injEq, List.not_mem_nil,
+      or_false] at h1 h2
+    rcases h1 with ⟨rfl, rfl⟩ | ⟨rfl, rfl⟩ <;> rcases h2 with ⟨h2, rfl⟩ | ⟨h2, rfl⟩ <;> simp only [EntSR]
+    · exact hsrel _ _ (Or.inl rfl) (Or.inr rfl)
+    · exact fun k e e' he he' => hsrel _ _ (hsubmem true k e he) (hsubmem false k e' he')
+  · intro pos x y hx hy
+    have h1 := Dict.mem_of_get?_eq_some pos x hx
+    have h2 := Dict.mem_of_get?_eq_some pos y hy
+    simp only [perm_seq, if_true, Bool.false_eq_true, if_false, List.mem_cons, Prod.mk.injEq, List.not_mem_nil,
+      or_false] at h1 h2
+    rcases h1 with ⟨rfl, rfl⟩ | ⟨rfl, rfl⟩ <;> rcases h2 with ⟨h2, rfl⟩ | ⟨h2, rfl⟩ <;> simp only [EntVerdict]
+    · exact ⟨fun _ => hv21, fun _ => hv12⟩
+    · exact fun k e e' he he' => ⟨fun _ => hel e' (hsubmem false k e' he'), fun _ => hel e (hsubmem true k e he)⟩
+
+/-- both forge (delays on: channel 1 is delayed by two samples), and the results list the
+    channels in different orders - which `ForgedSame` identifies -/
+example :
+    ((perm_seq true).forge true false false).toOption.map (fun out => out.map (fun p => p.2.content.map (fun c =>
+      c.2.1.map (fun x => (x.1, outN (.ok x.2.out)))))) =
+      some [[[(.int 1, some 12), (.int 2, some 12)]],
+            [[(.int 1, some 12), (.int 2, some 12)], [(.int 2, some 12), (.int 1, some 12)]]] ∧
+    ((perm_seq false).forge true false false).toOption.map (fun out => out.map (fun p => p.2.content.map (fun c =>
+      c.2.1.map (fun x => (x.1, outN (.ok x.2.out)))))) =
+      some [[[(.int 2, some 12), (.int 1, some 12)]],
+            [[(.int 2, some 12), (.int 1, some 12)], [(.int 1, some 12), (.int 2, some 12)]]] := by
+  constructor <;> decide +kernel
+
+/-- non-vacuity of `el_eq_forge_anyorder_partial`: the two-channel elements -/
+example : (order_el 1 2).beq (order_el 2 1) = true ∧ ElSR (order_el 1 2) (order_el 2 1) ∧
+    ((order_el 1 2).getArrays true).toOption.isSome = true :=
+  ⟨by decide +kernel, fun ch u v hu hv => by rw [order_el_sr _ _ ch u hu, order_el_sr _ _ ch v hv], by decide +kernel⟩
 
 end BB.C20
